@@ -256,3 +256,300 @@ def check_c04(res):
     res.count("swar-blocks", span[1] - span[0])
     if not out[0].startswith("OK"):
         res.violations.append(Violation("swar-block-wrong", "swarall %d %d" % span, out[0], "00"))
+
+
+# =============================================================================== value pools
+def value_pool(rnd, cfg, n=40):
+    """texts of values with near-miss variants (same value in different renderings, one leaf
+    changed, list<->vector, +-0.0, NaN, N/M spellings, reordered sets/maps)"""
+    clj, exp = cfg[0] == "1", cfg[1] == "1"
+    g = Gen(rnd.randrange(1 << 30), clj=clj, exp=exp)
+    base = [b"nil", b"true", b"false", b"0", b"-0", b"1", b"-1", b"1N", b"1M", b"1.0", b"0.0", b"-0.0", b"1e0", b"10e-1",
+            b"##NaN", b"##Inf", b"##-Inf", b"\\a", b"\\newline", b"\\u0061", b'""', b'"a"', b'"a\\n"', b'"a\n"',
+            b'"\\\\"', b":a", b":a/b", b"a", b"a/b", b"/", b"()", b"[]", b"{}", b"#{}", b"(1 2)", b"[1 2]", b"[2 1]",
+            b"(1 [2])", b"[1 (2)]", b"{:a 1 :b 2}", b"{:b 2 :a 1}", b"{:a 1 :b 3}", b"#{1 2 3}", b"#{3 2 1}", b"#{1 2 4}",
+            b"#inst \"x\"", b"#inst \"y\"", b"#uuid \"x\"", b"[[[[1]]]]", b"((((1))))", b"{[1 2] (3 4)}", b"{(1 2) [3 4]}",
+            b"#{[1] (2)}", b"#{(1) [2]}", b"9223372036854775808", b"9223372036854775808N", b"-9223372036854775808",
+            b"[0.0]", b"[-0.0]", b"(0.0 ##NaN)", b"[-0.0 ##NaN]", b'[" \\t"]', b'[" \t"]']
+    if clj:
+        base += [b"1/2", b"2/4", b"-1/2", b"0x10", b"16", b"020", b"2r10000", b"1/3", b"99999999999999999999/3",
+                 b"^:k [1]", b"[1]", b"^{:a 1} (1)", b"#:n{:a 1}", b"{:n/a 1}", b'"\\u0041"', b'"A"', b'"\\101"']
+    if exp:
+        base += [b"1_000", b"1000", b"1_0N", b"10N", b"1_0.5M", b"10.5M", b'"""\n ab\n """', b'"ab\\n"', b'"ab\n"']
+    for _ in range(n):
+        base.append(g.form(2))
+    # nested up to 64
+    for d in (10, 64):
+        base.append(b"[" * d + b"1" + b"]" * d)
+        base.append(b"(" * d + b"1" + b")" * d)
+        base.append(b"[" * d + b"2" + b"]" * d)
+    return base
+
+
+def pool_doc(pool):
+    """one vector document holding every pool value that parses on its own"""
+    return b"[" + b"\n".join(pool) + b"]"
+
+
+# =============================================================================== C07
+@prop("C07")
+def check_c07(res):
+    rnd = random.Random(res.seed)
+    thorough = res.tier == "thorough"
+    res.rule = ("scripts over two independently parsed copies of a pool of values and near-miss variants: all pairs "
+                "(equality both ways, hash), sampled triples (transitivity), each repeated after up to 4 preceding "
+                "hash/equal/lookup/string-get calls on the operands in every order (bounded exhaustive for one op set); "
+                "oracles on the implementation: reflexive on copies, symmetric, transitive, equal => same hash, answers "
+                "independent of history. non-trivial = distinct (pair, history)")
+    for cfg in CFGS:
+        pool = value_pool(rnd, cfg, 60 if thorough else 25)
+        # keep only values that parse alone
+        lines = [docline(p) for p in pool]
+        impl = runner.run_impl(cfg, "san", lines)
+        pool = [p for p, a in zip(pool, impl) if a.startswith("OK ")]
+        doc = pool_doc(pool)
+        n = len(pool)
+        hexdoc = hexs(doc)
+        scripts, meta = [], []
+        pairs = [(i, j) for i in range(n) for j in range(n)]
+        # one script: all pairs on fresh copies (no hash cached yet), then hash everything, then all pairs again
+        ops1 = ["E0.%d,1.%d;E1.%d,0.%d" % (i, j, j, i) for (i, j) in pairs]
+        opsh = ["H0.%d;H1.%d" % (i, i) for i in range(n)]
+        scripts.append("script P0=%s;P1=%s;%s;%s;%s" % (hexdoc, hexdoc, ";".join(ops1), ";".join(opsh), ";".join(ops1)))
+        meta.append(("allpairs",))
+        # histories: up to 4 preceding operations in every order for selected pairs
+        import itertools
+        sel = rnd.sample(pairs, min(len(pairs), 40 if thorough else 10))
+        for (i, j) in sel:
+            opset = ["H0.%d" % i, "H1.%d" % j, "E0.%d,0.%d" % (i, (i + 1) % n), "G0.%d" % i]
+            for k in range(0, 5):
+                for perm in itertools.permutations(opset, k):
+                    scripts.append("script P0=%s;P1=%s;%sE0.%d,1.%d" % (hexdoc, hexdoc, "".join(o + ";" for o in perm), i, j))
+                    meta.append(("hist", i, j))
+        triples = [(rnd.randrange(n), rnd.randrange(n), rnd.randrange(n)) for _ in range(400 if thorough else 120)]
+        for (i, j, k) in triples:
+            scripts.append("script P0=%s;P1=%s;P2=%s;E0.%d,1.%d;E1.%d,2.%d;E0.%d,2.%d" % (hexdoc, hexdoc, hexdoc, i, j, j, k, i, k))
+            meta.append(("triple", i, j, k))
+        impl, model = correspond(res, cfg, "san", scripts, label="equality-scripts", jobs=12)
+        base_answer = {}
+        for m_, ln, a in zip(meta, scripts, impl):
+            res.nontrivial.add((cfg, ln[-60:]))
+            res.count("script:" + m_[0])
+            if is_crash(a):
+                res.violations.append(Violation("equality-crash", ln, a, cfg))
+                continue
+            out = a.split(";")
+            if m_[0] == "allpairs":
+                np_ = len(pairs)
+                first = out[2:2 + 2 * np_]
+                hashes = out[2 + 2 * np_:2 + 2 * np_ + 2 * n]
+                second = out[2 + 2 * np_ + 2 * n:]
+                for idx, (i, j) in enumerate(pairs):
+                    e1, e2 = first[2 * idx], first[2 * idx + 1]
+                    e3, e4 = second[2 * idx], second[2 * idx + 1]
+                    h1, h2 = hashes[2 * i], hashes[2 * j + 1]
+                    res.evaluations += 1
+                    res.nontrivial.add((cfg, i, j))
+                    one = "script P0=%s;P1=%s;E0.%d,1.%d;E1.%d,0.%d;H0.%d;H1.%d;E0.%d,1.%d" % (
+                        hexs(b"[" + pool[i] + b"\n" + pool[j] + b"]"), hexs(b"[" + pool[i] + b"\n" + pool[j] + b"]"),
+                        0, 1, 1, 0, 0, 1, 0, 1)
+                    if i == j and e1 != "1":
+                        res.violations.append(Violation("copies-of-same-text-unequal:" + refs.kind_of_text(pool[i]), one, "value %r" % pool[i][:60], cfg))
+                    if e1 != e2:
+                        res.violations.append(Violation("equality-not-symmetric", one, "%r vs %r" % (pool[i][:40], pool[j][:40]), cfg))
+                    if e1 == "1" and h1 != h2:
+                        res.violations.append(Violation("equal-values-hash-differently", one, "%r vs %r" % (pool[i][:40], pool[j][:40]), cfg))
+                    if (e1, e2) != (e3, e4):
+                        res.violations.append(Violation("equality-changes-after-hashing", one, "%r vs %r" % (pool[i][:40], pool[j][:40]), cfg))
+                    base_answer[(i, j)] = e1
+            elif m_[0] == "hist":
+                _, i, j = m_
+                if (i, j) in base_answer and out[-1] != base_answer[(i, j)]:
+                    res.violations.append(Violation("equality-depends-on-history", ln, "%r vs %r" % (pool[i][:40], pool[j][:40]), cfg))
+            else:
+                if out[3] == "1" and out[4] == "1" and out[5] != "1":
+                    res.violations.append(Violation("equality-not-transitive", ln, str(m_), cfg))
+        res.sample({"cfg": cfg, "script": scripts[1][:300]})
+
+
+# =============================================================================== C08
+def c08_elements(rnd, cfg, kind, count):
+    """count pairwise distinct element texts of the given flavour"""
+    if kind == "int":
+        return [str(i * 7 + 1).encode() for i in range(count)]
+    if kind == "kw":
+        return [(":k%d" % i).encode() for i in range(count)]
+    if kind == "str":
+        return [('"s%d"' % i).encode() for i in range(count)]
+    if kind == "vec":
+        return [("[%d %d]" % (i, i + 1)).encode() for i in range(count)]
+    if kind == "mixed":
+        out = []
+        for i in range(count):
+            out.append(rnd.choice([str(i * 3).encode(), (":m%d" % i).encode(), ('"x%d"' % i).encode(),
+                                   ("[%d]" % i).encode(), ("(%d :a)" % i).encode(), ("{:k %d}" % i).encode(),
+                                   ("#{%d}" % i).encode(), ("#t %d" % i).encode(), ("sym%d" % i).encode(),
+                                   ("%d.5" % i).encode(), ("\\u%04x" % (0x100 + i)).encode()]))
+        return out
+    raise ValueError(kind)
+
+
+def c08_twins(cfg):
+    clj, exp = cfg[0] == "1", cfg[1] == "1"
+    tw = [(b"[1 2]", b"[1 2]"), (b"(1 2)", b"[1 2]"), (b"0.0", b"-0.0"), (b"##NaN", b"##NaN"), (b"1", b"1"),
+          (b'"a"', b'"a"'), (b":a/b", b":a/b"), (b"{:a [1]}", b"{:a (1)}"), (b"#{1 2}", b"#{2 1}"),
+          (b"#t [1]", b"#t (1)"), (b"12345678901234567890N", b"12345678901234567890N"), (b"1.5M", b"1.5M"),
+          (b"\\a", b"\\a"), (b"nil", b"nil"), (b"[[[0.0]]]", b"(((-0.0)))"), (b'"abcdefgh"', b'"abcdefgh"'),
+          (b"1.0", b"1.0"), (b"1e0", b"1.0")]
+    if clj:
+        tw += [(b"1/2", b"2/4"), (b"0x10", b"16"), (b"99999999999999999999/3", b"99999999999999999999/3")]
+    if exp:
+        tw += [(b"1_0N", b"10N"), (b"1_000", b"1000"), (b"1_0.5M", b"10.5M")]
+    return tw
+
+
+@prop("C08")
+def check_c08(res):
+    rnd = random.Random(res.seed)
+    thorough = res.tier == "thorough"
+    res.rule = ("set and map literals with element counts around every strategy edge (2,3,15,16,17,18,999,1000,1001,1002,1600) "
+                "x element flavours x an equal pair of every kind (twins incl. list/vector, +-0.0, NaN, N/M spellings, "
+                "composites) at positions (first,last),(adjacent),(random) x shuffles; oracle: rejected with DUPLICATE_* "
+                "iff a twin pair was inserted (twins are equal by the equality property), and the verdict is the same "
+                "for every permutation. non-trivial = distinct (count, flavour, twin, positions)")
+    counts = [2, 3, 15, 16, 17, 18, 100, 999, 1000, 1001, 1002, 1600] if thorough else [2, 3, 16, 17, 18, 1000, 1001, 1002]
+    for cfg in CFGS:
+        lines, meta = [], []
+        twins = c08_twins(cfg)
+        for count in counts:
+            kinds_ = ["int", "kw", "str", "vec", "mixed"] if thorough else (["int", "mixed", "vec"] if count < 100 else ["mixed"])
+            for kind in kinds_:
+                els = c08_elements(rnd, cfg, kind, count)
+                # no duplicates: must be accepted, for 2 shuffles
+                for _ in range(2):
+                    rnd.shuffle(els)
+                    lines.append(docline(b"#{" + b" ".join(els) + b"}"))
+                    meta.append(("set", count, kind, None))
+                    lines.append(docline(b"{" + b" ".join(e + b" 0" for e in els) + b"}"))
+                    meta.append(("map", count, kind, None))
+                # with one equal pair
+                for (a, b) in (twins if (thorough or count < 100) else rnd.sample(twins, 2)):
+                    body = [e for e in els[: count - 2]]
+                    positions = [(0, count - 1), (count // 2, count // 2 + 1)]
+                    positions.append(tuple(sorted(rnd.sample(range(count), 2))))
+                    if count >= 100 and not thorough:
+                        positions = [rnd.choice(positions)]
+                    for (i, j) in positions:
+                        seq = list(body)
+                        seq.insert(i, a)
+                        seq.insert(j, b)
+                        lines.append(docline(b"#{" + b" ".join(seq) + b"}"))
+                        meta.append(("set", count, kind, (a, b)))
+                        if rnd.random() < 0.5:
+                            lines.append(docline(b"{" + b" ".join(e + b" 0" for e in seq) + b"}"))
+                            meta.append(("map", count, kind, (a, b)))
+        # are the twins really equal / the plain elements really distinct per the implementation's equality?
+        impl, model = correspond(res, cfg, "san", lines, label="duplicates", jobs=12)
+        for m_, ln, a in zip(meta, lines, impl):
+            coll, count, kind, twin = m_
+            res.nontrivial.add((cfg, coll, count, kind, twin))
+            res.count("%s:%s" % (coll, "dup" if twin else "nodup"))
+            if is_crash(a):
+                res.violations.append(Violation("duplicate-check-crash", ln[:200], a, cfg))
+                continue
+            rejected = ("DUPLICATE_ELEMENT" in a) or ("DUPLICATE_KEY" in a)
+            if twin and not rejected:
+                res.violations.append(Violation("duplicate-accepted:%s" % (twin[0][:12].decode(errors="replace"),), ln[:100000],
+                                                "%s of %d %s elements containing %r and %r accepted: %s" % (coll, count, kind, twin[0], twin[1], a[:80]), cfg))
+            if not twin and not a.startswith("OK "):
+                res.violations.append(Violation("distinct-elements-rejected", ln[:100000],
+                                                "%s of %d distinct %s elements: %s" % (coll, count, kind, a[:120]), cfg))
+        res.sample({"cfg": cfg, "doc": lines[3][:200]})
+
+
+# =============================================================================== C09
+@prop("C09")
+def check_c09(res):
+    rnd = random.Random(res.seed)
+    thorough = res.tier == "thorough"
+    res.rule = ("maps and sets of 0..1500 entries with keys of every kind; for every (sampled for large maps) entry index "
+                "i: lookup/contains of an independently parsed copy of key i, absent probes, keyword / namespaced keyword / "
+                "string-key helpers, before and after hashing; oracle: lookup(copy of key i) = value i, contains = 1, "
+                "absent = none, helper = general lookup. non-trivial = distinct (map size, key kind, probe)")
+    for cfg in CFGS:
+        clj = cfg[0] == "1"
+        scripts, meta = [], []
+        for size in ([0, 1, 2, 5, 17, 40] + ([1001, 1500] if thorough else [1001])):
+            keys = []
+            for i in range(size):
+                k = rnd.choice([":k%d" % i, ":n%d/k" % i, "s%d" % i, '"str%d"' % i, '"e\\\\n%d"' % i, "%d" % i, "[%d]" % i,
+                                "(%d)" % i, "{:a %d}" % i, "#{%d}" % i, "%d.5" % i, "\\u%04x" % (0x200 + i), "#t %d" % i,
+                                "%dN" % i, "%d.0M" % i])
+                keys.append(k.encode())
+            mdoc = b"{" + b" ".join(k + (" %d" % i).encode() for i, k in enumerate(keys)) + b"}"
+            sdoc = b"#{" + b" ".join(keys) + b"}"
+            kdoc = b"[" + b" ".join(keys) + b" :absent [99999] \"zz\" 1e99]"
+            idxs = range(size) if size <= 40 else rnd.sample(range(size), 25)
+            for pre in ("", "H0;", "H0.0;" if size else ""):
+                ops = []
+                for i in idxs:
+                    ops.append("L0,2.%d" % i)
+                    ops.append("K0,2.%d" % i)
+                    ops.append("S1,2.%d" % i)
+                    res.count("probe:present")
+                for j in range(size, size + 4):
+                    ops.append("L0,2.%d" % j)
+                    ops.append("K0,2.%d" % j)
+                    ops.append("S1,2.%d" % j)
+                    res.count("probe:absent")
+                scripts.append("script P0=%s;P1=%s;P2=%s;%s%s" % (hexs(mdoc), hexs(sdoc), hexs(kdoc), pre, ";".join(ops)))
+                meta.append(("general", size, list(idxs), len(pre.split(";")) - 1))
+            # helpers
+            hops, hexp = [], []
+            for i in idxs:
+                k = keys[i].decode()
+                if k.startswith(":") and "/" not in k:
+                    hops.append("W0,%s" % k[1:].encode().hex()); hexp.append(i)
+                elif k.startswith(":"):
+                    ns, nm = k[1:].split("/")
+                    hops.append("N0,%s,%s" % (ns.encode().hex(), nm.encode().hex())); hexp.append(i)
+                elif k.startswith('"str'):
+                    hops.append("T0,%s" % k[1:-1].encode().hex()); hexp.append(i)
+                elif k.startswith('"e'):
+                    # literal written with an escape: the helper is given the decoded content
+                    hops.append("T0,%s" % k[1:-1].replace("\\\\n", "\\n").encode().hex()); hexp.append(("esc", i))
+            if hops:
+                scripts.append("script P0=%s;%s" % (hexs(mdoc), ";".join(hops)))
+                meta.append(("helpers", size, hexp, 0))
+        impl, model = correspond(res, cfg, "san", scripts, label="lookup-scripts", jobs=12)
+        for m_, ln, a in zip(meta, scripts, impl):
+            res.nontrivial.add((cfg, m_[0], m_[1], m_[3]))
+            if is_crash(a):
+                res.violations.append(Violation("lookup-crash", ln[:3000], a, cfg))
+                continue
+            out = a.split(";")
+            if m_[0] == "general":
+                _, size, idxs, npre = m_
+                body = out[3 + npre:]
+                pos = 0
+                for i in idxs:
+                    l, k, s = body[pos:pos + 3]
+                    pos += 3
+                    if l != "idx%d" % i or k != "1" or s != "1":
+                        res.violations.append(Violation("present-key-not-found", ln[:3000],
+                                                        "map of %d: copy of key %d -> lookup %s contains %s set %s" % (size, i, l, k, s), cfg))
+                for _ in range(4):
+                    l, k, s = body[pos:pos + 3]
+                    pos += 3
+                    if l != "none" or k != "0" or s != "0":
+                        res.violations.append(Violation("absent-key-found", ln[:3000], "lookup %s contains %s set %s" % (l, k, s), cfg))
+            else:
+                _, size, hexp, _ = m_
+                for want, got in zip(hexp, out[1:]):
+                    if isinstance(want, tuple):
+                        if got != "idx%d" % want[1]:
+                            res.violations.append(Violation("string-key-helper-misses-escaped-literal", ln[:3000],
+                                                            "key %d written with an escape: helper returned %s" % (want[1], got), cfg))
+                    elif got != "idx%d" % want:
+                        res.violations.append(Violation("helper-disagrees-with-lookup", ln[:3000], "entry %d: %s" % (want, got), cfg))
+        res.sample({"cfg": cfg, "script": scripts[2][:300]})
